@@ -1,8 +1,9 @@
 From Coq Require Import Extraction ExtrOcamlBasic.
 From Common Require Import Bytes Outcome Drv Blake2b.
 From TrieCodec Require Import ProofsDb ProofsWrite.
+From C04 Require Import ProofsDiscipline.
 From C04 Require Import Model.
 Extraction "model.ml" drv_b2n drv_n2b drv_z_of_n drv_n_of_z drv_nat_of_n drv_n_of_nat
   hash256 encode erase entries lookup_bytes load_all get_from_db_fixed get_from_db_pinned
   write_dirty_fixed write_dirty_pinned db_get empty_root wf_node
-  needs needs_clean wd_puts write_dirty_node norm.
+  needs needs_clean wd_puts write_dirty_node norm parts all_sub pneeds.
